@@ -78,7 +78,7 @@ class C06(Property):
             ctx.require(len(tr.times) == len(tr.droplets) and len(tr) >= 1, "track:lengths", f"track with {len(tr.times)} times / {len(tr.droplets)} droplets")
             ctx.require(not any(id(d) in input_ids for d in tr.droplets), "track:aliases-input", "a track holds the very object of the input emulsion")
         # second sentence, under its premise
-        tol = 1e-9 * spec["site_spacing"]
+        tol = 0.0 if spec.get("exact") else 1e-9 * spec["site_spacing"]  # exact-arithmetic histories: touching is not overlapping
         if not any(T.frame_has_overlap(f, geom, tol) for f in frames):
             ctx.cls("no-within-frame-overlap")
             ftimes = [T.tkey(t) for t in etc.times]
